@@ -12,11 +12,18 @@ Parts (see /verif/design/C04.md):
   * oracle(): judges the PROPERTY on those observations with its own abstract simulator
     {reached, current state, parameters in force} in absolute time -- shares no code with the Coq model;
   * corr_files(): the same histories + observations as Gallina literals for `Eval vm_compute in mismatches`.
+
+Second deepening pass: the operation ["view", kind] (reading a view of get_result() between simulation calls; model
+coq/sim/Views.v, fact view_mode from extract_view_mode(), own correspondence shards comparing the live model's parameter
+values), the exact stamp clause for steady-state rows (reached + n*step), the families gen_override_steady and
+gen_view_between, the finding view-read-reverts-parameter-update (guard: read while the parameters in force differ from the
+last segment's; excused only while recorded in known_findings.json).
 """
 
 from __future__ import annotations
 
 import ast
+import json
 import math
 import signal
 from fractions import Fraction
@@ -430,6 +437,78 @@ return self"""
     return facts
 
 
+# ----- views of get_result(): do they leave the model shared with the Simulator as they found it? -----
+_PARS_IN_FORCE = "return {k: p.value for k, p in self.model.get_raw_parameters(as_copy=False).items()}"
+_GET_RESULT_TAIL = "return Result(Simulation(model=self.model, raw_variables=variables, raw_parameters=parameters))"
+
+
+def _update_sites(fn: ast.FunctionDef) -> list[str]:
+    """arguments of every `self.model.update_parameters(...)` call inside fn, in source order"""
+    calls = [
+        n for n in ast.walk(fn)
+        if isinstance(n, ast.Call) and ast.unparse(n.func) == "self.model.update_parameters" and len(n.args) == 1 and not n.keywords
+    ]
+    calls.sort(key=lambda n: (n.lineno, n.col_offset))
+    return [ast.unparse(n.args[0]) for n in calls]
+
+
+def _restored(fn: ast.FunctionDef) -> bool:
+    """fn has the shape   ... in_force = self._parameters_in_force() ; try: <every update_parameters(p)> finally:
+    self.model.update_parameters(in_force) ...   (the shape of fixes/C04-views-restore-parameters.diff)"""
+    body = _body(fn)
+    for i, st in enumerate(body):
+        if ast.unparse(st) == "in_force = self._parameters_in_force()" and i + 1 < len(body) and isinstance(body[i + 1], ast.Try):
+            tr = body[i + 1]
+            if tr.handlers or tr.orelse or [ast.unparse(x) for x in tr.finalbody] != ["self.model.update_parameters(in_force)"]:
+                return False
+            n_inside = 0
+            for x in tr.body:
+                n_inside += sum(
+                    1 for n in ast.walk(x)
+                    if isinstance(n, ast.Call) and ast.unparse(n.func) == "self.model.update_parameters"
+                )
+            n_all = sum(1 for n in ast.walk(fn) if isinstance(n, ast.Call) and ast.unparse(n.func) == "self.model.update_parameters")
+            return n_inside >= 1 and n_all == n_inside + 1  # everything but the restoring call sits inside the try
+    return False
+
+
+def extract_view_mode() -> str:
+    """ViewLastSegment: the views re-apply each segment's parameters to the model they share with the Simulator and leave
+    it at the LAST segment's values (the code as it is: a parameter update made since is lost);
+    ViewRestores: they put back what they found (fixes/C04-views-restore-parameters.diff);  anything else: ViewUnknown."""
+    try:
+        res_tree = ast.parse((common.REPO / "src/mxlpy/simulation.py").read_text())
+        sim_tree = ast.parse((common.REPO / "src/mxlpy/simulator.py").read_text())
+    except (OSError, SyntaxError):
+        return "ViewUnknown"
+    gr = _method(sim_tree, "Simulator", "get_result")
+    if gr is None or not _body(gr) or ast.unparse(_body(gr)[-1]) != _GET_RESULT_TAIL:
+        return "ViewUnknown"  # the result no longer shares the Simulator's model (or is built differently)
+    sites: dict[str, list[str]] = {}
+    fns: dict[str, ast.FunctionDef] = {}
+    for n in res_tree.body:
+        if isinstance(n, ast.ClassDef) and n.name == "Simulation":
+            for m in n.body:
+                if isinstance(m, ast.FunctionDef):
+                    # overloads share a name: the last definition wins, as in Python
+                    fns[m.name] = m
+    for name, m in fns.items():
+        st = _update_sites(m)
+        if st:
+            sites[name] = st
+    if sites == {"_compute_args": ["p"], "get_right_hand_side": ["p"], "_get_fluxes_by_sign": ["self.raw_parameters[-1]"]}:
+        return "ViewLastSegment"
+    if (
+        sites == {"_compute_args": ["p", "in_force"], "get_right_hand_side": ["p", "in_force"]}
+        and _restored(fns["_compute_args"])
+        and _restored(fns["get_right_hand_side"])
+        and "_parameters_in_force" in fns
+        and _norm(fns["_parameters_in_force"]) == _PARS_IN_FORCE
+    ):
+        return "ViewRestores"
+    return "ViewUnknown"
+
+
 FACT_ORDER = [
     "sim_frame", "sim_cmp", "tc_frame", "tc_cmp", "tc_keep", "skip_sim", "skip_tc", "skip_ss",
     "ss_resets", "ss_advances", "ss_step", "ss_max", "ptc_cmp", "win_lo", "win_hi", "updvar_keeps", "abs_time", "shapes_ok",
@@ -443,11 +522,13 @@ def gen() -> dict[str, str]:
         "(* REGENERATED from src/mxlpy/simulator.py and src/mxlpy/integrators/int_scipy.py by harness/c04_sim.py;\n"
         "   do not edit.  An unrecognised shape yields *Unknown / false / 0, which breaks C04_facts_pinned and\n"
         "   C14_facts_pinned. *)\n"
-        "From Coq Require Import NArith.\nFrom Sim Require Import Integrator.\n"
+        "From Coq Require Import NArith.\nFrom Sim Require Import Integrator Views.\n"
         "Definition gen_sim_facts : sim_facts :=\n  mkSimFacts " + " ".join(vals) + ".\n"
+        "(* src/mxlpy/simulation.py: what reading a view of get_result() leaves in the model shared with the Simulator *)\n"
+        "Definition gen_view_mode : view_mode := " + (vm := extract_view_mode()) + ".\n"
     )
     common.write_if_changed(common.area_dir(AREA) / "GenSimFacts.v", text)
-    return f
+    return dict(f, view_mode=vm)
 
 
 # ---------------------------------------------------------------------------------------
@@ -714,8 +795,51 @@ def apply_op(sim, op: list, ctx: dict | None = None) -> None:  # noqa: ANN001
             sim.update_variables(u)
     elif kind == "clear":
         sim.clear_results()
+    elif kind == "view":
+        read_view(sim, op[1])
     else:
         raise AssertionError(kind)
+
+
+# views of get_result() a user reads BETWEEN simulation calls.  "raw" (get_variables without derived quantities) returns
+# raw_variables and never evaluates the model; all others do (touch = true in the Coq model).  "a+b" reads two views of
+# ONE result object (the second one finds the arguments cached).
+VIEW_KINDS = ["variables", "fluxes", "rhs", "producers", "consumers", "combined", "args", "raw",
+              "variables+producers", "fluxes+consumers", "producers+consumers"]
+
+
+def view_touches(kind: str) -> bool:
+    return kind != "raw"
+
+
+def read_view(sim, kind: str) -> None:  # noqa: ANN001
+    from mxlpy.simulation import Simulation
+
+    res = sim.get_result().value
+    if not isinstance(res, Simulation):
+        return  # Result(error): nothing to read
+    for k in kind.split("+"):
+        if k == "variables":
+            out = res.variables
+        elif k == "fluxes":
+            out = res.fluxes
+        elif k == "rhs":
+            out = res.get_right_hand_side()
+        elif k == "producers":
+            out = res.get_producers("x", scaled=False)
+        elif k == "consumers":
+            out = res.get_consumers("y" if "y" in res.raw_variables[0].columns else "x", scaled=True)
+        elif k == "combined":
+            out = res.get_combined()
+        elif k == "args":
+            out = res.get_args()
+        elif k == "raw":
+            out = res.get_variables(include_derived_variables=False, include_readouts=False, include_surrogate_variables=False)
+        else:
+            raise AssertionError(k)
+        n = sum(len(df) for df in res.raw_variables)
+        if len(out) != n:
+            raise RuntimeError(f"view {k} has {len(out)} rows, the result has {n}")
 
 
 def _mutated_grids(ctx: dict) -> list:
@@ -816,6 +940,20 @@ def run_history(mode: str, y0: list, p0: list, ops: list, *, want_fluxes: bool =
 TOL_A, TOL_R = 2e-6, 2e-4  # scipy mode only; the solver runs with atol = rtol = 1e-8
 
 
+def ss_step_size() -> int:
+    """the step of the steady-state search as the code under test declares it (Simulator.simulate_to_steady_state does
+    not pass one): the default of Scipy.integrate_to_steady_state(step_size=...)"""
+    import inspect
+
+    from mxlpy.integrators import Scipy
+
+    try:
+        d = inspect.signature(Scipy.integrate_to_steady_state).parameters["step_size"].default
+        return int(d) if isinstance(d, int) and d > 0 else 100
+    except (KeyError, TypeError, ValueError):
+        return 100
+
+
 def _close(mode: str, got: Any, exp: Any) -> bool:
     if mode == "exact":
         return fr(got) == exp
@@ -869,6 +1007,12 @@ class Spec:
         self.guard = False  # the judgement being made right now falls under (a)/(b)
         self.guard_ns = False  # ... under the C14 finding protocol-start-rounded-to-ns (see classify)
         self.axis_from = 0  # rows before this position of the accumulated axis are covered by (c)
+        # --- guard of the finding view-read-reverts-parameter-update (the views of get_result() leave the model they share
+        # with the Simulator at the LAST segment's parameters): attributed to it is a view read while the parameters in
+        # force differ from those recorded for the last segment, and what is run with the reverted values afterwards
+        # (until the next simulating call has been judged).  A read while they are the same must change nothing: judged.
+        self.view_dirty = False  # a read changed the live model's parameters and nothing has been simulated since
+        self.guard_view = False
 
 
 def oracle_history(mode: str, y0: list, p0: list, ops: list, obs: list[dict]) -> list[dict]:
@@ -880,7 +1024,8 @@ def oracle_history(mode: str, y0: list, p0: list, ops: list, obs: list[dict]) ->
 
     def flag(i: int, what: str) -> None:
         bad.append({"op": i, "what": what, "tags": sorted(sp.tags | ({"steady-guard"} if sp.guard else set())
-                                                         | ({"ptc-start-not-ns"} if sp.guard_ns else set()))})
+                                                         | ({"ptc-start-not-ns"} if sp.guard_ns else set())
+                                                         | ({"view-guard"} if sp.guard_view else set()))})
 
     def n_rows_of(segs: list | None) -> int:
         return sum(len(x) for x in segs) if segs else 0
@@ -1020,6 +1165,23 @@ def oracle_history(mode: str, y0: list, p0: list, ops: list, obs: list[dict]) ->
             prev_segs, prev_pars = None, None
             sp.cur = list(sp.y_init)
             return
+        if kind == "view":
+            # reading the results collected so far is not an operation of the simulator at all: nothing it holds, and
+            # nothing the next segment runs with (the parameter values of the live model), may change
+            if o["out"] != "done":
+                flag(i, f"reading get_result() [{op[1]}] ended with {o['out']}")
+            expect_unchanged(i, o, "reading a view of get_result()")
+            got = {k: fr(v) for k, v in o["model_pars"].items()}
+            if got != sp.pars:
+                last = {k: fr(v) for k, v in prev_pars[-1].items()} if prev_pars else None
+                if last is not None and last != sp.pars:
+                    sp.guard_view = True  # parameters were updated since the last recorded segment
+                diff = {k: (str(sp.pars.get(k)), str(got.get(k))) for k in sorted(set(sp.pars) | set(got)) if sp.pars.get(k) != got.get(k)}
+                flag(i, f"reading get_result() [{op[1]}] changed the parameter values of the live model the Simulator continues "
+                        f"with: {', '.join(f'{k}: {a} -> {b}' for k, (a, b) in diff.items())} -- the next segment does not run "
+                        f"under the parameter values in force")
+                sp.view_dirty = True
+            return
         # ---- simulating operations
         if sp.failed:
             if o["out"] != "done":
@@ -1121,8 +1283,15 @@ def oracle_history(mode: str, y0: list, p0: list, ops: list, obs: list[dict]) ->
             row = o["segs"][-1][0]
             t = fr(row[0])
             sp.guard = sp.advanced or sp.stale  # (a): the reset throws the integrator back to where it was created
+            step = F(ss_step_size())
             if t <= sp.reached:
                 flag(i, f"steady-state row is stamped t={t}, not later than the time already reached ({sp.reached})")
+            elif not sp.guard and (t - sp.reached) % step != 0:
+                # the search starts at the time already reached and proceeds in whole steps: in ABSOLUTE time the row
+                # belongs at reached + n*step, n >= 1 (C04_steady_stamp_exact).  Only where the run is well defined: on an
+                # advanced / stale integrator (guard (a) of the finding) the stamp means nothing and is not looked at
+                flag(i, f"steady-state row is stamped t={t}: the search started at the time already reached ({sp.reached}) and "
+                        f"proceeds in whole steps of {step}, so in absolute time the row belongs at {sp.reached} + n*{step}")
             else:
                 exp = _flow(mode, sp.pars, sp.reached, sp.cur, t - sp.reached)
                 if not all(_close(mode, g, e) for g, e in zip(row[1:], exp)):
@@ -1228,6 +1397,11 @@ def oracle_history(mode: str, y0: list, p0: list, ops: list, obs: list[dict]) ->
             sp.axis_from = max(sp.axis_from, n_after - 1)
         if kind == "clear":
             sp.axis_from = 0
+        if sp.view_dirty and kind != "view":
+            got = {k: fr(v) for k, v in o["model_pars"].items()}
+            if kind in simulating or kind == "steady" or got == sp.pars:
+                # what ran with the reverted values has been judged (once): go on from what the model holds now
+                sp.pars, sp.view_dirty, sp.guard_view = got, False, False
     return bad
 
 
@@ -1245,6 +1419,8 @@ def classify(v: dict, mode: str) -> str | None:
         return "steady-state-resets-integrator"
     if "ptc-start-not-ns" in tags:
         return "protocol-start-rounded-to-ns"  # C14
+    if "view-guard" in tags:
+        return "view-read-reverts-parameter-update"
     return None
 
 
@@ -1279,7 +1455,8 @@ def gen_history(rng, mode: str, max_len: int = 6, *, weights: dict | None = None
     if mode == "exact":
         # a != 0: the first rate reads `time`, so the model time handed to the right-hand side is observable
         p0 += [rng.choice([F(0), F(0), F(0), F(1), F(1, 2)]), F(0)]
-    w = {"sim": 30, "tc": 20, "prot": 7, "ptc": 8, "steady": 3, "updpar": 10, "updvar": 14, "clear": 4}
+    # "view" (weight 0 unless asked for: C14 keeps its stream) must stay the LAST entry
+    w = {"sim": 30, "tc": 20, "prot": 7, "ptc": 8, "steady": 3, "updpar": 10, "updvar": 14, "clear": 4, "view": 0}
     if weights:
         w.update(weights)
     if mode == "tdep":
@@ -1414,6 +1591,8 @@ def gen_history(rng, mode: str, max_len: int = 6, *, weights: dict | None = None
             else:
                 u = {"x": js(rng.choice([F(1), F(2)])), "y": js(rng.choice([F(0), F(1)]))}
             ops.append(["updvar", u])
+        elif kind == "view":
+            ops.append(["view", rng.choice(VIEW_KINDS)])
         else:
             ops.append(["clear"])
             reached, have = F(0), False
@@ -1500,6 +1679,65 @@ def gen_steady_override(rng, mode: str) -> dict:  # noqa: ANN001
     if rng.random() < 0.2:
         ops.append(["updvar", _one_var(rng)])
     ops += _cont_ops(rng, mode, reached, rng.randint(1, 2))[0]
+    return {"mode": mode, "y0": [js(v) for v in y0], "p0": [js(v) for v in p0], "ops": ops}
+
+
+def gen_override_steady(rng, mode: str) -> dict:  # noqa: ANN001
+    """simulate(T) ; update_variable(s) ; steady-state run [; update_variable ; continuation]: the integrator was just
+    re-initialised, so the run is well defined (outside the finding's guard) and its row belongs at T + n*100 in ABSOLUTE
+    time -- also for T >= 100, where a stamp in the restarted integrator's own time is not even later than T (seeded
+    change C04-4).  exact mode: x' = k*y + a*time with c = 0 and the override y := -a*(T + 50(2n-1))/k makes the iterates at
+    integrator time 100(n-1) and 100n coincide (absolute T + 100n), in a state that depends on the absolute time;
+    scipy mode: the decay chain's genuine steady state."""
+    small = rng.random() < 0.5
+    T = _g(rng.randint(1, 32)) if small else F(rng.choice([100, 150, 200, 300, 400])) + _g(rng.choice([0, 0, 4, 12]))
+    if mode == "exact":
+        n = rng.choice([1, 2, 2, 3])
+        k, a = rng.choice([F(1), F(1, 2), F(2)]), rng.choice([F(1), F(1, 2)])
+        y0 = [rng.choice([F(1), F(2), F(0)]), rng.choice([F(0), F(1), F(-1)])]
+        p0 = [k, F(0), a, F(0)]
+        ops: list = [["sim", js(T), rng.choice([1, 2, 4])]]
+        ov = {"y": js(-a * (T + 50 * (2 * n - 1)) / k)}
+        if rng.random() < 0.3:
+            ov["x"] = js(rng.choice([F(0), F(1), F(3)]))
+        ops.append(["updvar", ov])
+        ops.append(["steady"])
+        reached: Fraction | None = T + 100 * n
+    else:
+        y0, p0 = _base(rng, mode)
+        ops = [["sim", js(T), rng.choice([1, 2, 4])], ["updvar", _one_var(rng)], ["steady"]]
+        reached = None
+    if rng.random() < 0.7:
+        if rng.random() < 0.25:
+            ops.append(["updpar", {"k": js(rng.choice([F(1, 2), F(1), F(2)]))}])
+        ops.append(["updvar", _one_var(rng)])
+        ops += _cont_ops(rng, mode, reached, rng.randint(1, 2))[0]
+    return {"mode": mode, "y0": [js(v) for v in y0], "p0": [js(v) for v in p0], "ops": ops}
+
+
+def gen_view_between(rng, mode: str) -> dict:  # noqa: ANN001
+    """continuation ; update_parameter(s) ; continuation ; READ view(s) of get_result() ; continuation ...: at least two
+    segments recorded under different parameter values, views read between the calls (seeded change C04-6: a view left
+    the live model at the FIRST segment's values).  ~30% of the reads come right after update_parameter(s), i.e. while the
+    parameters in force differ from the last segment's (guard of the finding view-read-reverts-parameter-update while
+    it is recorded; judged like everything else once it is not)."""
+    y0, p0 = _base(rng, mode)
+    ops, reached = _cont_ops(rng, mode, F(0), 1)
+    for _ in range(rng.randint(1, 3)):
+        u = {"k": js(rng.choice([F(0), F(1, 2), F(1), F(2), F(1, 4), F(3)]))}
+        if rng.random() < 0.3:
+            u["c"] = js(rng.choice([F(0), F(1, 2), F(1)]))
+        ops.append(["updpar", u])
+        if rng.random() < 0.3:
+            ops.append(["view", rng.choice(VIEW_KINDS)])
+        if rng.random() < 0.2:
+            ops.append(["updvar", _one_var(rng)])
+        more, reached = _cont_ops(rng, mode, reached, 1)
+        ops += more
+        for _ in range(rng.choice([1, 1, 2])):
+            ops.append(["view", rng.choice(VIEW_KINDS)])
+    more, reached = _cont_ops(rng, mode, reached, rng.randint(1, 2))
+    ops += more
     return {"mode": mode, "y0": [js(v) for v in y0], "p0": [js(v) for v in p0], "ops": ops}
 
 
@@ -1633,6 +1871,23 @@ def coq_obs(o: dict, mode: str) -> str:
     return f"mkObs {cnat(out)} {cnat(err)} {segs} {pars}"
 
 
+def has_views(h: dict) -> bool:
+    return any(op[0] == "view" for op in h["ops"])
+
+
+def coq_vcase(h: dict, obs: list[dict]) -> str:
+    """a history WITH view reads (Views.v / ViewsExec.v): operations wrapped in VOp, reads as VRead touch; every observation
+    carries the parameter values of the live model"""
+    mode = h["mode"]
+    p0 = list(h["p0"]) + (["0", "0"] if mode != "exact" else [])
+    names = PARS["exact"]
+    vops = clist(
+        f"VRead {cbool(view_touches(op[1]))}" if op[0] == "view" else f"VOp ({coq_op(op, mode)})" for op in h["ops"]
+    )
+    vobs = clist(f"({coq_obs(o, mode)}, {_cqs([o['model_pars'].get(n, '0') for n in names])})" for o in obs)
+    return f"({cbool(mode == 'exact')}, {_cqs(h['y0'])}, {_cqs(p0)},\n   {vops},\n   {vobs})"
+
+
 def coq_case(h: dict, obs: list[dict]) -> str:
     mode = h["mode"]
     p0 = list(h["p0"]) + (["0", "0"] if mode != "exact" else [])
@@ -1652,20 +1907,40 @@ def corr_file(cases: list[str]) -> str:
     )
 
 
+def vcorr_file(cases: list[str]) -> str:
+    defs = "\n".join(f"Definition case_{i} : vcase :=\n  {c}." for i, c in enumerate(cases))
+    return (
+        "From Coq Require Import QArith List.\n"
+        "From Sim Require Import Integrator Simulator Protocol Views SimExec ViewsExec GenSimFacts.\n"
+        "Import ListNotations.\nOpen Scope Q_scope.\n" + defs + "\n"
+        "Definition cases : list vcase := [" + "; ".join(f"case_{i}" for i in range(len(cases))) + "].\n"
+        "Eval vm_compute in vmismatches gen_sim_facts gen_view_mode cases.\n"
+    )
+
+
 def correspondence(run: common.Run, tag: str, items: list[tuple[dict, list[dict]]], shard: int = 60) -> set[int]:
-    """evaluate the model on every (history, observations) inside Coq; -> indices that disagree"""
-    cases = [coq_case(h, obs) for h, obs in items]
-    files = {f"{tag}_{k:04d}": corr_file(chunk) for k, chunk in enumerate(common.chunks(cases, shard))}
+    """evaluate the model on every (history, observations) inside Coq; -> indices that disagree.  Histories with view
+    reads go to their own shards (model: Views.v, the live model's parameter values are compared after every operation)"""
+    plain = [gi for gi, (h, _) in enumerate(items) if not has_views(h)]
+    views = [gi for gi, (h, _) in enumerate(items) if has_views(h)]
+    files: dict[str, str] = {}
+    where: dict[str, list[int]] = {}
+    for k, chunk in enumerate(common.chunks(plain, shard)):
+        name = f"{tag}_{k:04d}"
+        files[name], where[name] = corr_file([coq_case(*items[gi]) for gi in chunk]), list(chunk)
+    for k, chunk in enumerate(common.chunks(views, shard)):
+        name = f"{tag}_v{k:04d}"
+        files[name], where[name] = vcorr_file([coq_vcase(*items[gi]) for gi in chunk]), list(chunk)
     res = common.coq_eval_many(AREA, files, timeout_s=900)
     mism: set[int] = set()
-    for k, name in enumerate(sorted(files)):
+    for name in sorted(files):
         ok, out = res[name]
         lists = common.parse_eval_list(out) if ok else None
         if not ok or not lists:
             run.broken_correspondence.append(f"correspondence shard {name} did not evaluate: {out[-300:]}")
             continue
         for j in lists[-1]:
-            gi = k * shard + j
+            gi = where[name][j]
             mism.add(gi)
             if len(run.broken_correspondence) < 5:
                 h, obs = items[gi]
@@ -1694,6 +1969,13 @@ ASSUMPTIONS = [
     "(validation only, solver runs at 1e-8)",
     "caller-owned ndarrays: that a call leaves the array it was given unmodified is validated on the implementation after every operation "
     "(in the model the arguments of an operation are values)",
+    "views of get_result() read between simulation calls (C04 histories): modelled only in their effect on the parameter values of the "
+    "model shared with the Simulator (coq/sim/Views.v; what a view RETURNS is C10's business); fact view_mode extracted from "
+    "src/mxlpy/simulation.py (the update_parameters call sites of class Simulation: two recognised shapes) and Simulator.get_result "
+    "(must pass model=self.model); which of the 11 driven view kinds evaluate the model is validated by comparing the live model's "
+    "parameter values with the Coq model after every operation",
+    "steady-state stamp clause of the oracle: the search step is the default step_size declared by Scipy.integrate_to_steady_state in "
+    "the tree under test (also a pinned fact, ss_step)",
     "correspondence harness: literal printer, observation canonicaliser, coqc output parser",
 ]
 
@@ -1746,20 +2028,48 @@ CORPUS_C04 += [
      "ops": [["tc", ["1", "2"], 0], ["updvar", {"x": "1"}], ["tc", ["1", "2"], 0], ["clear"], ["tc", ["1", "2"], 0]]},
 ]
 
+# --- second round of seeded changes (seeded/C04-4, C04-6)
+CORPUS_C04 += [
+    # a steady-state run right after an override belongs at (time reached) + n*100 in ABSOLUTE time: exact mode with a
+    # "steady state" whose value depends on the absolute time (x' = y + time, y := -(T + 50(2n-1))), T = 2 and T = 300;
+    # real scipy with T = 300 (a stamp in the restarted integrator's own time, 200, is not even later than T) and T = 3/2
+    {"mode": "exact", "y0": ["1", "0"], "p0": ["1", "0", "1", "0"],
+     "ops": [["sim", "2", 2], ["updvar", {"y": "-152"}], ["steady"], ["updvar", {"x": "1"}], ["sim", "204", 2]]},
+    {"mode": "exact", "y0": ["1", "0"], "p0": ["1", "0", "1", "0"],
+     "ops": [["sim", "300", 2], ["updvar", {"y": "-350"}], ["steady"], ["updvar", {"x": "1"}], ["sim", "402", 2]]},
+    {"mode": "scipy", "y0": ["2", "1"], "p0": ["1/2", "1/2"],
+     "ops": [["sim", "300", 2], ["updvar", {"x": "2"}], ["steady"], ["updvar", {"y": "1"}], ["prot", [["1", {"k": "1/2"}]], 2]]},
+    {"mode": "scipy", "y0": ["2", "1"], "p0": ["1", "1/2"], "ops": [["sim", "3/2", 2], ["updvar", {"x": "2"}], ["steady"]]},
+    # views of get_result() read between two continuations, after segments recorded under different parameter values:
+    # the next segment runs (and is recorded) with the values in force
+    {"mode": "scipy", "y0": ["1", "0"], "p0": ["1", "1/2"],
+     "ops": [["sim", "1", 4], ["updpar", {"k": "3"}], ["sim", "2", 4], ["view", "variables+producers"], ["sim", "3", 4]]},
+    {"mode": "exact", "y0": _Y0, "p0": _P0,
+     "ops": [["sim", "1", 2], ["updpar", {"k": "2"}], ["sim", "2", 2], ["view", "fluxes+consumers"], ["tc", ["5/2", "3"]]]},
+    {"mode": "tdep", "y0": ["2", "1"], "p0": ["1/2", "1"],
+     "ops": [["sim", "1", 2], ["updpar", {"k": "2", "c": "1/2"}], ["sim", "2", 2], ["view", "producers+consumers"], ["view", "rhs"],
+             ["prot", [["1/2", {"k": "1"}]], 2]]},
+    {"mode": "exact", "y0": _Y0, "p0": _P0,
+     "ops": [["sim", "1", 2], ["updpar", {"k": "2"}], ["tc", ["3/2", "2"]], ["view", "raw"], ["view", "combined"], ["updvar", {"x": "0"}],
+             ["view", "args"], ["sim", "3", 2]]},
+]
+
 WITNESS_STEADY = {"mode": "exact", "y0": ["1", "0"], "p0": ["1", "0", "0", "0"],
                   "ops": [["sim", "500", 2], ["steady"], ["sim", "800", 2]]}
-WITNESSES = {"steady-state-resets-integrator": WITNESS_STEADY}
+WITNESS_VIEW = {"mode": "exact", "y0": ["1", "1"], "p0": ["1", "0", "0", "0"],
+                "ops": [["sim", "1", 1], ["updpar", {"k": "3"}], ["view", "variables"], ["sim", "2", 1]]}
+WITNESSES = {"steady-state-resets-integrator": WITNESS_STEADY, "view-read-reverts-parameter-update": WITNESS_VIEW}
 
 
 def enum_histories(rng) -> list[dict]:  # noqa: ANN001, ARG001
-    """every history of length <= 3 over a fixed 14-operation alphabet (exact mode)"""
+    """every history of length <= 3 over a fixed 15-operation alphabet (exact mode)"""
     import itertools
 
     st = [["1", {"k": "2", "c": "1/2"}], ["1/2", {"k": "0", "c": "1"}]]
     alphabet = [
         ["sim", "1", 2], ["sim", "2", 1], ["sim", "3/2", 4], ["tc", ["1/2", "1"]], ["tc", ["1", "2", "3"]], ["tc", ["3/2"]],
         ["prot", st, 2], ["ptc", st, ["1/2", "1", "5/4", "2"], True], ["ptc", st, ["1/2", "3"], False], ["steady"],
-        ["updpar", {"k": "2"}], ["updvar", {"x": "2"}], ["updvar", {"y": "0"}], ["clear"],
+        ["updpar", {"k": "2"}], ["updvar", {"x": "2"}], ["updvar", {"y": "0"}], ["clear"], ["view", "variables"],
     ]
     out = []
     for n in (1, 2, 3):
@@ -1828,14 +2138,19 @@ def run_all(run: common.Run, prop: str, hs: list[dict], proofs_ok: bool) -> None
     known_ids = {f["id"] for f in common.load_known_findings(prop)}
     attributed: dict[str, int] = {}
     n_viol = 0
+    reported: set[str] = set()
     for hi, v, h in pending:
         fid = classify(v, h["mode"])
         if fid in known_ids and hi not in mism_h:
             attributed[fid] = attributed.get(fid, 0) + 1
             continue
         if n_viol < 4:
-            n_viol += 1
             small = shrink(h, prop, v)
+            key = json.dumps([small["mode"], small["y0"], small["p0"], small["ops"]], sort_keys=True)
+            if key in reported:
+                continue  # the same minimal history again
+            reported.add(key)
+            n_viol += 1
             what = v["what"]
             if small["ops"] != h["ops"]:
                 # describe the shrunk history in its own terms
